@@ -543,7 +543,8 @@ def b_int(eng, v=0, base=10):
             return to_arith(v)
         if ops.is_str_sort(v):
             raise Unsupported("int() of symbolic string")
-        raise Unsupported("int() of real")
+        # int(x) truncates toward zero; z3's to_int floors
+        return z3.If(v >= 0, z3.ToInt(v), -z3.ToInt(-v))
     if isinstance(v, Ext):
         return v.sym_unop(eng, "int")
     try:
